@@ -14,6 +14,7 @@ import (
 	"verifharness/drivers/enrol"
 	"verifharness/drivers/faults"
 	"verifharness/drivers/hsd"
+	"verifharness/drivers/iso"
 	"verifharness/drivers/mux"
 	"verifharness/drivers/reg"
 	"verifharness/drivers/roots"
@@ -45,6 +46,9 @@ var families = map[string]famFn{
 	},
 	"hsd": func(in, out string, seed int64, par int, tier string) error {
 		return runFamily(in, out, seed, par, hsd.Run, func(b hsd.Behaviour) string { return b.Id })
+	},
+	"iso": func(in, out string, seed int64, par int, tier string) error {
+		return runFamily(in, out, seed, par, iso.Run, func(b iso.Behaviour) string { return b.Id })
 	},
 	"mux": func(in, out string, seed int64, par int, tier string) error {
 		return runFamily(in, out, seed, par, mux.Run, func(b mux.Instance) string { return b.Id })
